@@ -165,8 +165,9 @@ def main():
     prev = json.load(open(outp)) if os.path.exists(outp) else []
     if "--retest-survivors" in a:
         # after the checks were strengthened: run the recorded survivors again (same mutants)
-        pick = [{k: r[k] for k in ("file", "line", "op", "new")} for r in prev if r["status"] == "SURVIVED" and not r.get("equivalent")]
-        prev = [r for r in prev if not (r["status"] == "SURVIVED" and not r.get("equivalent"))]
+        again = lambda r: (r["status"] == "SURVIVED" and not r.get("equivalent")) or (r["status"] == "SURVIVED" and r.get("tool_errors"))
+        pick = [{k: r[k] for k in ("file", "line", "op", "new")} for r in prev if again(r)]
+        prev = [r for r in prev if not again(r)]
     done = {(r["file"], r["line"], r["new"]) for r in prev}
     pick = [p for p in pick if (p["file"], p["line"], p["new"]) not in done]
     with cf.ThreadPoolExecutor(max_workers=lanes) as ex:
